@@ -27,3 +27,125 @@ pub fn sched_point(site: &'static str) {
         hook(site);
     }
 }
+
+/// True when a scheduling hook is installed on the calling thread.
+#[inline]
+pub fn active() -> bool {
+    HOOK.with(|c| c.borrow().is_some())
+}
+
+/// Lock types whose acquire and release are scheduling points.
+///
+/// Drop-in for the subset of `std::sync::RwLock` this crate uses. On a thread without a
+/// hook the wrapper forwards to the std lock. On a thread with a hook, acquiring is a
+/// scheduling point (`rwlock.read` / `rwlock.write`) followed by a try-lock loop that
+/// reports `rwlock.blocked` to the scheduler instead of blocking in the kernel, and
+/// dropping a guard is a scheduling point (`rwlock.release`) taken after the lock has
+/// been released.
+pub mod sync {
+    use super::{active, sched_point};
+    use std::ops::{Deref, DerefMut};
+    use std::sync::{LockResult, PoisonError, TryLockError};
+
+    /// See the module documentation.
+    #[derive(Debug, Default)]
+    pub struct RwLock<T>(std::sync::RwLock<T>);
+
+    /// Shared guard of [`RwLock`].
+    #[derive(Debug)]
+    pub struct RwLockReadGuard<'a, T>(Option<std::sync::RwLockReadGuard<'a, T>>);
+
+    /// Exclusive guard of [`RwLock`].
+    #[derive(Debug)]
+    pub struct RwLockWriteGuard<'a, T>(Option<std::sync::RwLockWriteGuard<'a, T>>);
+
+    impl<T> RwLock<T> {
+        /// New unlocked lock.
+        pub fn new(value: T) -> Self {
+            Self(std::sync::RwLock::new(value))
+        }
+
+        /// Shared access; see the module documentation.
+        pub fn read(&self) -> LockResult<RwLockReadGuard<'_, T>> {
+            if !active() {
+                return match self.0.read() {
+                    Ok(g) => Ok(RwLockReadGuard(Some(g))),
+                    Err(p) => Err(PoisonError::new(RwLockReadGuard(Some(p.into_inner())))),
+                };
+            }
+            sched_point("rwlock.read");
+            loop {
+                match self.0.try_read() {
+                    Ok(g) => return Ok(RwLockReadGuard(Some(g))),
+                    Err(TryLockError::Poisoned(p)) => {
+                        return Err(PoisonError::new(RwLockReadGuard(Some(p.into_inner()))));
+                    }
+                    Err(TryLockError::WouldBlock) => sched_point("rwlock.blocked"),
+                }
+            }
+        }
+
+        /// Exclusive access; see the module documentation.
+        pub fn write(&self) -> LockResult<RwLockWriteGuard<'_, T>> {
+            if !active() {
+                return match self.0.write() {
+                    Ok(g) => Ok(RwLockWriteGuard(Some(g))),
+                    Err(p) => Err(PoisonError::new(RwLockWriteGuard(Some(p.into_inner())))),
+                };
+            }
+            sched_point("rwlock.write");
+            loop {
+                match self.0.try_write() {
+                    Ok(g) => return Ok(RwLockWriteGuard(Some(g))),
+                    Err(TryLockError::Poisoned(p)) => {
+                        return Err(PoisonError::new(RwLockWriteGuard(Some(p.into_inner()))));
+                    }
+                    Err(TryLockError::WouldBlock) => sched_point("rwlock.blocked"),
+                }
+            }
+        }
+    }
+
+    fn released() {
+        if active() && !std::thread::panicking() {
+            sched_point("rwlock.release");
+        }
+    }
+
+    impl<T> Deref for RwLockReadGuard<'_, T> {
+        type Target = T;
+        #[allow(clippy::expect_used)]
+        fn deref(&self) -> &T {
+            self.0.as_ref().expect("guard is live until dropped")
+        }
+    }
+
+    impl<T> Drop for RwLockReadGuard<'_, T> {
+        fn drop(&mut self) {
+            drop(self.0.take());
+            released();
+        }
+    }
+
+    impl<T> Deref for RwLockWriteGuard<'_, T> {
+        type Target = T;
+        #[allow(clippy::expect_used)]
+        fn deref(&self) -> &T {
+            self.0.as_ref().expect("guard is live until dropped")
+        }
+    }
+
+    impl<T> DerefMut for RwLockWriteGuard<'_, T> {
+        #[allow(clippy::expect_used)]
+        fn deref_mut(&mut self) -> &mut T {
+            self.0.as_mut().expect("guard is live until dropped")
+        }
+    }
+
+    impl<T> Drop for RwLockWriteGuard<'_, T> {
+        fn drop(&mut self) {
+            drop(self.0.take());
+            released();
+        }
+    }
+}
